@@ -1241,6 +1241,11 @@ def rule_linecol(ctx, rep, rid="R-C05-linecol"):
         multi = []
         for vn, v in sorted(a["variants"].items()):
             for at in v.get("attrs", []):
+                # a callback decides how far the token reaches (`#[token("(*", block_comment)]` bumps over what it finds in the remainder): its
+                # text is whatever the callback consumed, line breaks included
+                mcb = re.search(r'#\[(?:token|regex)\(r?"(?:[^"\\]|\\.)*"\s*,\s*(?:callback\s*=\s*)?([A-Za-z_][A-Za-z_0-9:]*)\s*[,)]', at)
+                if mcb and mcb.group(1) not in ("ignore", "priority") and vn not in multi:
+                    multi.append(vn)
                 m = re.search(r'#\[regex\(r?"((?:[^"\\]|\\.)*)"', at)
                 if m:
                     ptn = m.group(1)
@@ -1261,28 +1266,94 @@ def rule_linecol(ctx, rep, rid="R-C05-linecol"):
                 nl_tests.add(i)
             if si["kind"] == "bool" and si["subject"][0] == "bin" and any(o[0] == "c" and o[1] == "char" and len(o) > 3 and o[3].get("int") == "10" for o in si["subject"][2:4]):
                 nl_tests.add(i)
-        # match arms on the token type: which variants reach a newline test?
-        covered = None
-        for i in sorted(b.reachable(0)):
-            si = switch_info(b, i)
-            if si and si["kind"] == "disc" and (si.get("adt") or "").endswith("token::TokenType"):
-                covered = set()
-                for succ, labs in si["edges"].items():
-                    region = b.reachable(succ, avoid={x for x in heads if x != i and (b.call_at(x) and "Lexer" in (b.call_at(x).ga or ""))})
-                    if region & nl_tests or region & {w[0] for w in line_w}:
-                        for l in labs:
-                            covered.add(str(l))
-                        if "otherwise" in [str(l) for l in labs]:
-                            covered.add("*")
-                break
+        # which kinds complete an iteration of the lexer loop without their text being looked at character by character?  Decided per kind on
+        # the paths of one iteration: at a test of the token's kind only the edges this kind can take are followed (`match`, `matches!`,
+        # `if let`), the Ok edge of the lexer's result is taken, and a flag that was assigned a constant on the path (`let multi =
+        # matches!(..); if !multi { col += len; continue }`) decides the test it feeds.
+        from vlib.mir import explore
+        lex_heads = {c.bb for c in b.calls() if (c.u or "") == "core::iter::traits::iterator::Iterator::next" and "Lexer" in ((c.ga or "") + (c.callee or ""))}
+        scan = set(nl_tests) | {w[0] for w in line_w}
+        char_heads = {h for h in heads if h not in lex_heads and b.reachable(h, avoid=lex_heads) & scan}
+
+        def uncounted_path(kind):
+            found = []
+
+            def step(st, bb):
+                passed, flags = st
+                if bb in scan or bb in char_heads:
+                    passed = True
+                fl = dict(flags)
+                for s_ in b.stmts(bb):
+                    if s_[0] != "=" or s_[1][1]:
+                        continue
+                    l = s_[1][0]
+                    if b.local_ty(l) != "bool":
+                        continue
+                    rv = s_[2]
+                    if rv[0] == "use" and rv[1][0] == "c":
+                        fl[l] = (rv[1][2] == "true")
+                    elif rv[0] == "use" and rv[1][0] in ("cp", "mv") and not rv[1][1][1] and rv[1][1][0] in fl:
+                        fl[l] = fl[rv[1][1][0]]
+                    elif rv[0] == "un" and rv[1] == "Not" and op_place(rv[2]) is not None and not op_place(rv[2])[1] and op_place(rv[2])[0] in fl:
+                        fl[l] = not fl[op_place(rv[2])[0]]
+                    else:
+                        fl.pop(l, None)
+                return (passed, frozenset(fl.items()))
+
+            def edge(st, bb, succ):
+                passed, flags = st
+                t = b.term(bb)
+                if t[0] == "switch":
+                    si = switch_info(b, bb)
+                    if si and si["kind"] == "disc":
+                        labs = [str(x) for x in si["edges"].get(succ, [])]
+                        adt = si.get("adt") or ""
+                        if labs == ["otherwise"]:
+                            # the fall-through edge of a test that names every variant is not a way any value can take
+                            dp = op_place(t[1])
+                            dd = b.single_def(dp[0]) if dp is not None and not dp[1] else None
+                            names = [n_ for _, n_ in dd[3][3]] if dd and dd[0] == "stmt" and dd[3][0] == "disc" else []
+                            named = {str(x) for s2_, l2_ in si["edges"].items() if s2_ != succ for x in l2_}
+                            if names and set(names) <= named:
+                                return None
+                        if adt.endswith("token::TokenType") and not (kind in labs or labs == ["otherwise"]):
+                            return None
+                        if adt == "core::result::Result" and labs == ["Err"]:
+                            return None
+                    p_ = op_place(t[1])
+                    if p_ is not None and not p_[1] and p_[0] in dict(flags):
+                        val = dict(flags)[p_[0]]
+                        ft = [x[1] for x in t[2] if x[0] == "0"]
+                        if len(t[2]) == 1 and ft:
+                            taken = ft[0] if not val else t[3]
+                            if succ != taken:
+                                return None
+                if succ in lex_heads:
+                    if not passed:
+                        found.append(bb)
+                    return None
+                if passed:
+                    return None     # nothing more to learn on this path
+                return st
+            for h in lex_heads:
+                cal = b.call_at(h)
+                if cal is None or cal.target is None:
+                    continue
+                try:
+                    explore(b, (False, frozenset()), step, edge, start=cal.target)
+                except RuntimeError:
+                    return None
+            return found
         for vn in multi:
             inst = "lexer::tokenize|token %s can contain a line break" % vn
             if not nl_tests:
                 r.finding(inst + "|no-per-character-counting", where0, "no per-character test for '\\n' in the lexer loop")
-            elif covered is None or vn in covered or "*" in covered:
-                r.ok(inst, where0, "counted character by character")
+            elif not lex_heads:
+                r.finding(inst + "|no-lexer-loop", where0, "cannot find the loop that takes tokens from the lexer")
+            elif uncounted_path(vn) == []:
+                r.ok(inst, where0, "counted character by character on every path of an iteration that this kind can take")
             else:
-                r.finding(inst + "|not-counted", where0, "a %s token can span lines (its pattern matches '\\n') but its arm of the token match only adds the token's length to the column: "
+                r.finding(inst + "|not-counted", where0, "a %s token can span lines (its pattern matches '\\n') but an iteration of the lexer loop can end for it without its text having been looked at character by character (its length is added to the column): "
                           "every later token is reported one line too high per embedded line break" % vn)
     r.note("%d line advances, %d absolute / %d relative col writes" % (len(line_w), len(col_abs), len(col_rel)))
 
